@@ -109,9 +109,9 @@ def check(ctx):
         for b in rb.blocks:
             if b.cleanup or b.term.kind != "switch" or rb.is_noise(b.term):
                 continue
-            e, ls = an.switch_info(b.idx)
-            if e[0] == "call" and flow.short(e[1]).endswith(("Option::is_some", "Option::is_none")) and self_field(e[3][0]) == "keep_alive_id":
-                out_lab = "true" if flow.short(e[1]).endswith("is_some") else "false"
+            e, ls = an.switch_info(b.idx, opt=True)
+            if self_field(e) == "keep_alive_id" and any("Some" in l for l in ls.values()):
+                out_lab = "Some"
                 guard = (b.idx, ls, out_lab)
         ctx.check(guard is not None, RO, "C07/one-outstanding/guard", rb.loc,
                   reason="anchor-missing: no test of self.keep_alive_id.is_some() in the tick arm", detail="tick arm tests keep_alive_id.is_some()")
